@@ -3,7 +3,9 @@ evidence files, exit codes (0 held / 1 VIOLATION / 2 infrastructure error)."""
 import json, os, re, signal, subprocess, sys, time
 
 VERIF = os.path.dirname(os.path.dirname(os.path.abspath(__file__)))
-EVID = os.path.join(VERIF, "evidence")
+# evidence/ describes /repo itself; runs against a scratch tree (VERIF_REPO, used for seeded changes) write theirs under build/ instead
+_alt = os.environ.get("VERIF_REPO")
+EVID = os.path.join(VERIF, "evidence") if not _alt or os.path.realpath(_alt) == "/repo" else os.path.join(VERIF, "build", "evidence-scratch")
 REPLAY = os.path.join(VERIF, "replay")
 KNOWN = os.path.join(VERIF, "known_findings.json")
 
